@@ -231,8 +231,8 @@ func main() {
 			Consts []want `json:"consts"`
 		}
 		if err := json.Unmarshal(b, &cfg); err != nil {
-			fmt.Fprintf(os.Stderr, "constgen: %s: %v\n", f, err)
-			os.Exit(1)
+			fmt.Fprintf(os.Stderr, "constgen: skipping %s: %v\n", f, err)
+			continue
 		}
 		for _, w := range cfg.Consts {
 			k := w.Pkg + "." + w.Name
